@@ -13,7 +13,7 @@ functions = [
      'subst': DEC + [(r'point_cloud_decoder_->bitstream_version\(\)', 'self->bitstream_version', 1), (r'in_buffer->remaining_size\(\)', 'DecoderBuffer_remaining_size(in_buffer)', 1),
                      (r'point_attribute_ids_\.resize\(num_attributes\)', 'alloc_table(self, (uint64_t)num_attributes, 4)', 1)]},
     {'name': 'Edgebreaker_Header', 'file': EB,
-     'region': r'\n(  uint32_t num_encoded_vertices;\n#ifdef DRACO_BACKWARDS_COMPATIBILITY_SUPPORTED.*?if \(num_encoded_split_symbols > num_encoded_symbols\) \{\n    return false;[^\n]*\n  \})',
+     'region': r'\n(  uint32_t num_encoded_vertices;\n#ifdef DRACO_BACKWARDS_COMPATIBILITY_SUPPORTED.*?)\n\s*vertex_traversal_length_\.clear\(\);',
      'region_tail': 'self->num_faces = num_faces; self->num_encoded_vertices = num_encoded_vertices; self->num_encoded_symbols = num_encoded_symbols; self->num_encoded_split_symbols = num_encoded_split_symbols; return true;',
      'sig': 'bool Edgebreaker_Header(struct GuardCtx *self)',
      'subst': [(r'decoder_->bitstream_version\(\)', 'self->bitstream_version', 4), (r'!decoder_->buffer\(\)->Decode\(&num_attribute_data\)', '!DecoderBuffer_Decode_u8(self->buffer, &num_attribute_data)', 1),
